@@ -236,6 +236,42 @@ pub fn spaces(tier: Tier) -> Vec<Space> {
             check_script_bytes(&rs::serialize(&toks), acc, case, &desc);
         }));
     }
+    // (a+) extreme script numbers (see C14 `extreme_numbers`): every ordered pair under every opcode byte of the arithmetic /
+    // comparison / bitwise / splice range 0x7e..=0xa5, and every value alone under every accepted opcode byte
+    {
+        let ext: Arc<Vec<Vec<u8>>> = Arc::new(c14::extreme_numbers(thorough).iter().map(crate::refs::interp::enc).collect());
+        let ne = ext.len() as u64;
+        let range: Vec<u8> = ops.iter().copied().filter(|b| (0x7e..=0xa5).contains(b)).collect();
+        let nr = range.len() as u64;
+        let e1 = ext.clone();
+        v.push(Space::new("extreme-numbers-binary", nr * ne * ne, move |case, acc| {
+            let c = coords(case.idx, &[nr, ne, ne]);
+            let op = range[c[0] as usize];
+            let st: Stack = vec![e1[c[1] as usize].clone(), e1[c[2] as usize].clone()];
+            if huge_operand(op, &st) {
+                acc.bump("left_to_isolated_space", 1);
+                return;
+            }
+            let mut toks = pushes_for(&st, &vec![]);
+            toks.push(Tok::Op(op));
+            let desc = || json!({"op": opname(op), "initial_stack": show_stack(&st)});
+            check_script_bytes(&rs::serialize(&toks), acc, case, &desc);
+        }));
+        let (e2, ops2) = (ext.clone(), ops.clone());
+        v.push(Space::new("extreme-numbers-unary", no * ne, move |case, acc| {
+            let c = coords(case.idx, &[no, ne]);
+            let op = ops2[c[0] as usize];
+            let st: Stack = vec![e2[c[1] as usize].clone()];
+            if huge_operand(op, &st) {
+                acc.bump("left_to_isolated_space", 1);
+                return;
+            }
+            let mut toks = pushes_for(&st, &vec![]);
+            toks.push(Tok::Op(op));
+            let desc = || json!({"op": opname(op), "initial_stack": show_stack(&st)});
+            check_script_bytes(&rs::serialize(&toks), acc, case, &desc);
+        }));
+    }
     // (a') deeper stacks for the opcodes that look further down (2OVER, 2ROT, 2SWAP, 3DUP, ROT, PICK, ROLL, WITHIN, CHECKMULTISIG*) over V3
     {
         let vals = vals.clone();
